@@ -144,9 +144,8 @@ class DictProxy(dict):
         if other is None or not isinstance(other, dict):
             return False
 
-        if isinstance(other, DictProxy):
-            return self._is_compatible_proxy(other) and super().__eq__(other)
-
+        # equality is about the entries, as it is for dict (and for ListProxy): the typed dict of
+        # another configuration or field that holds the same entries is equal, and == agrees with !=
         return super().__eq__(other)
 
 
